@@ -288,6 +288,8 @@ func runC15(c *Ctx) {
 	}
 
 	// ---- R15.8: the context-cancelled arm must not wait for anything
+	c.rule("R15.9", "the connection keeps being read until it ends (so that the peer's close, FIN or RST is seen and handlers are cancelled): once a message was taken from the socket reader, every path restarts the reader, signals loss or redials")
+	c.readCycleRule("R15.9")
 	c.rule("R15.8", "the loop's context-cancelled arm returns without taking a lock, writing to the socket or sending on a channel")
 	if arm, ok := w.Arms["ctx"]; !ok || arm.Body == nil {
 		c.und("R15.8", "context arm of the connection loop", "-", "not recovered")
